@@ -43,10 +43,23 @@ var vc07ClientPool = []vc07Client{
 	{Via: "sni", Prof: 3, Dev: 0, Remote: netip.MustParseAddr("203.0.113.8")},
 	{Via: "sni", Prof: 4, Dev: 0, Remote: netip.MustParseAddr("203.0.113.72"), ECS: "192.0.2.64", ECSBits: 26},
 	{Via: "cpe", Prof: 4, Dev: 0, Remote: netip.MustParseAddr("203.0.113.9")},
+	// a device whose address has no location at all
+	{Via: "sni", Prof: 2, Dev: 0, Remote: netip.MustParseAddr("198.51.100.201")},
+	// subnets that end inside an octet, and one that no location covers
+	{Via: "anon", Prof: 0, Remote: netip.MustParseAddr("203.0.113.10"), ECS: "192.0.2.128", ECSBits: 25},
+	{Via: "cpe", Prof: 1, Dev: 0, Remote: netip.MustParseAddr("2001:db8:c1::6"), ECS: "2001:db8:e1:80::", ECSBits: 57},
+	// two client-subnet options
+	{Via: "anon", Prof: 0, Remote: netip.MustParseAddr("203.0.113.11"), ECS: "192.0.2.0", ECSBits: 24, ECS2: "203.0.113.0"},
+	{Via: "sni", Prof: 4, Dev: 0, Remote: netip.MustParseAddr("203.0.113.73"), ECS: "2001:db8:e1::", ECSBits: 48, ECS2: "192.0.2.0"},
 }
 
 // vc07DrawName draws a name k<kind>t<ttl>.<cat>.<scope>.test.
 func vc07DrawName(t *rapid.T) string {
+	// Minimal names: the root and a one-letter top-level name.
+	if rapid.IntRange(0, 11).Draw(t, "plainName") == 0 {
+		return rapid.SampledFrom([]string{".", "a."}).Draw(t, "plain")
+	}
+
 	kind := rapid.SampledFrom([]vdns.Kind{vdns.KA, vdns.KA, vdns.KA, vdns.KAMixed, vdns.KCNAME, vdns.KNodataSOA, vdns.KNX, vdns.KServfail, vdns.KRefused, vdns.KTTL0}).Draw(t, "kind")
 	ttlIdx := rapid.SampledFrom([]int{6, 6, 5, 4, 0}).Draw(t, "ttlIdx")
 	cat := rapid.SampledFrom(vc07CatList).Draw(t, "cat")
@@ -85,9 +98,6 @@ func vc07DrawCase(t *rapid.T, st *vstat.Stats, maxStreams, maxPerStream int) (c 
 		for i := 0; i < k; i++ {
 			n++
 			r := &vc07Req{
-				N:      n,
-				Stream: s,
-				Client: cl,
 				Name:   vdns.MixCase(t, rapid.SampledFrom(names).Draw(t, "name")),
 				QType:  rapid.SampledFrom([]uint16{dns.TypeA, dns.TypeA, dns.TypeA, dns.TypeAAAA, dns.TypeHTTPS, dns.TypeTXT}).Draw(t, "qtype"),
 				Debug:  rapid.IntRange(0, 5).Draw(t, "debug") == 0,
@@ -97,12 +107,59 @@ func vc07DrawCase(t *rapid.T, st *vstat.Stats, maxStreams, maxPerStream int) (c 
 				RD:     rapid.IntRange(0, 5).Draw(t, "rd") != 0,
 				EDNS:   rapid.Bool().Draw(t, "edns"),
 				Cookie: rapid.IntRange(0, 3).Draw(t, "cookie") == 0,
-				Yield:  rapid.IntRange(0, 3).Draw(t, "yield"),
 			}
 			if rapid.IntRange(0, 5).Draw(t, "zbits") == 0 {
 				r.Z = uint16(rapid.IntRange(1, 0x7fff).Draw(t, "z"))
 			}
 
+			// A near miss: an earlier request of the case again, with exactly one
+			// component changed (or only the client, if the stream's differs).
+			if len(c.Reqs) > 0 && rapid.IntRange(0, 2).Draw(t, "nearMiss") == 0 {
+				r0 := c.Reqs[rapid.IntRange(0, len(c.Reqs)-1).Draw(t, "nearMissOf")]
+				*r = *r0
+				r.NearMissOf = r0.N
+				r.Changed = rapid.SampledFrom([]string{"do", "ad", "cd", "rd", "edns", "case", "qtype", "debug", "cookie", "z", "nothing"}).Draw(t, "change")
+				switch r.Changed {
+				case "do":
+					r.DO = !r.DO
+				case "ad":
+					r.AD = !r.AD
+				case "cd":
+					r.CD = !r.CD
+				case "rd":
+					r.RD = !r.RD
+				case "edns":
+					r.EDNS = !r.EDNS
+				case "case":
+					b := []byte(r.Name)
+					for i := range b {
+						if b[i] >= 'a' && b[i] <= 'z' {
+							b[i] -= 32
+
+							break
+						} else if b[i] >= 'A' && b[i] <= 'Z' {
+							b[i] += 32
+
+							break
+						}
+					}
+
+					r.Name = string(b)
+				case "qtype":
+					r.QType = map[uint16]uint16{dns.TypeA: dns.TypeAAAA, dns.TypeAAAA: dns.TypeA, dns.TypeHTTPS: dns.TypeA, dns.TypeTXT: dns.TypeA}[r.QType]
+				case "debug":
+					r.Debug = !r.Debug
+				case "cookie":
+					r.Cookie = !r.Cookie
+				case "z":
+					r.Z ^= 1
+				}
+			}
+
+			r.N, r.Stream, r.Client = n, s, cl
+			r.MsgID = rapid.SampledFrom([]uint16{uint16(1000 + n), uint16(1000 + n), 0, 65535, 1}).Draw(t, "msgID")
+			r.Cancel = rapid.IntRange(0, 14).Draw(t, "cancel") == 0
+			r.Yield = rapid.IntRange(0, 3).Draw(t, "yield")
 			r.build()
 			stream = append(stream, r)
 			c.Reqs = append(c.Reqs, r)
@@ -228,40 +285,7 @@ func vc07DumpVal(b *strings.Builder, v reflect.Value) {
 
 // vc07Verdict tells what the request's own profile does with it.
 func vc07Verdict(r *vc07Req) string {
-	p := vc07Profiles[r.Client.Prof]
-	if !p.Filtering {
-		return "pass"
-	}
-
-	cat, _ := vc07CatOf(r.Name)
-	bit := vc07CatNames[cat]
-	if bit == 0 || p.Policy&bit == 0 {
-		return "pass"
-	}
-
-	switch bit {
-	case vc07CatAds, vc07CatTrk:
-		return "blocked"
-	case vc07CatRb:
-		return "resp-blocked"
-	case vc07CatAl:
-		return "allowed"
-	case vc07CatRw:
-		if r.QType == dns.TypeA || r.QType == dns.TypeAAAA {
-			return "rewritten"
-		}
-
-		return "pass"
-	case vc07CatSb:
-		// The hash-prefix filter acts on A, AAAA and HTTPS questions.
-		if r.QType == dns.TypeA || r.QType == dns.TypeAAAA || r.QType == dns.TypeHTTPS {
-			return "safe-browsing"
-		}
-
-		return "pass"
-	default:
-		return "cname"
-	}
+	return vc07Decide(r.Client.Prof, r.Name, r.QType)
 }
 
 func vc07EventsString(evs []vc07Event) string {
@@ -308,20 +332,26 @@ func vc07Compare(r *vc07Req, got, alone vc07Outcome) (problems []string) {
 		bad("recorded events differ:\n      got\n        %s\n      alone\n        %s", ge, ae)
 	}
 
-	// Direct identity checks on the shared-run response.
+	// Direct identity checks on the shared-run response (with its real TTLs).
+	if gm != nil {
+		_, _, gm = vc07Render(got.Wire, false)
+	}
+
 	if gm != nil {
 		qc := uint16(dns.ClassINET)
 		if r.Debug {
 			qc = dns.ClassCHAOS
 		}
 
-		if gm.Id != uint16(1000+r.N) || len(gm.Question) != 1 || gm.Question[0] != (dns.Question{Name: r.Name, Qtype: r.QType, Qclass: qc}) {
+		if gm.Id != r.MsgID || len(gm.Question) != 1 || gm.Question[0] != (dns.Question{Name: r.Name, Qtype: r.QType, Qclass: qc}) {
 			bad("response id %d question %v do not belong to the request", gm.Id, gm.Question)
 		}
 
 		if r.Debug {
 			problems = append(problems, vc07CheckDebug(r, gm)...)
 		}
+
+		problems = append(problems, vc07CheckShape(r, gm)...)
 	}
 
 	problems = append(problems, vc07CheckEvents(r, got.Events)...)
@@ -344,7 +374,31 @@ func vc07CheckDebug(r *vc07Req, m *dns.Msg) (problems []string) {
 	}
 
 	p := vc07Profiles[r.Client.Prof]
-	want := map[string]string{"client-ip": r.Client.Remote.String()}
+	want := map[string]string{"client-ip": r.Client.Remote.String(), "server-ip": vc07DNSAddr.Addr().String()}
+	// doc/debugdns.md: the result type, with the prefix of the stage that
+	// decided.
+	switch v := vc07Verdict(r); v {
+	case "pass":
+		want["resp.res-type"] = "normal"
+	case "blocked":
+		want["req.res-type"], want["req.rule-list-id"] = "blocked", "vc07_"+p.ID
+	case "resp-blocked":
+		want["resp.res-type"], want["resp.rule-list-id"] = "blocked", "vc07_"+p.ID
+	case "allowed":
+		want["req.res-type"], want["req.rule-list-id"] = "allowed", "vc07_"+p.ID
+	case "safe-browsing":
+		want["req.res-type"] = "modified"
+	default:
+		want["req.res-type"], want["req.rule-list-id"] = "modified", "vc07_"+p.ID
+	}
+
+	// doc/debugdns.md: the TTL of the debug records is the configured
+	// filters.response_ttl (the default constructor's), whoever asks.
+	for _, rr := range m.Extra {
+		if txt, ok := rr.(*dns.TXT); ok && txt.Hdr.Class == dns.ClassCHAOS && txt.Hdr.Ttl != uint32(vc07Profiles[0].TTL.Seconds()) {
+			problems = append(problems, fmt.Sprintf("debug record %s has TTL %d, want %d", txt.Hdr.Name, txt.Hdr.Ttl, uint32(vc07Profiles[0].TTL.Seconds())))
+		}
+	}
 	if d := r.Client.device(); d != nil {
 		want["device-id"], want["profile-id"] = d.ID, p.ID
 	}
@@ -366,6 +420,87 @@ func vc07CheckDebug(r *vc07Req, m *dns.Msg) (problems []string) {
 	for k, v := range vals {
 		if strings.HasSuffix(k, "rule") && strings.Contains(v, "$client=") && !strings.HasSuffix(v, "$client="+p.ID) {
 			problems = append(problems, fmt.Sprintf("debug record %s names rule %q of another profile", k, v))
+		}
+	}
+
+	return problems
+}
+
+// vc07CheckShape checks a filtered response against the blocking mode, the
+// TTL and the rewrite targets of the asker's own profile (doc/configuration.md,
+// blocking modes), independently of any run of the stack.
+func vc07CheckShape(r *vc07Req, m *dns.Msg) (problems []string) {
+	p := vc07Profiles[r.Client.Prof]
+	ttl := uint32(p.TTL.Seconds())
+	bad := func(format string, args ...any) {
+		problems = append(problems, fmt.Sprintf("verdict %s, profile %q (%s, ttl %d): ", vc07Verdict(r), p.ID, p.Mode, ttl)+fmt.Sprintf(format, args...))
+	}
+
+	// oneIP checks that the answer is exactly one address record.
+	oneIP := func(want string) {
+		if m.Rcode != dns.RcodeSuccess || len(m.Answer) != 1 {
+			bad("rcode %d with %d answers, want NOERROR with one", m.Rcode, len(m.Answer))
+
+			return
+		}
+
+		got := ""
+		switch a := m.Answer[0].(type) {
+		case *dns.A:
+			got = a.A.String()
+		case *dns.AAAA:
+			got = a.AAAA.String()
+		}
+
+		if got != want || m.Answer[0].Header().Ttl != ttl {
+			bad("answer %s, want address %s with the profile's TTL", m.Answer[0], want)
+		}
+	}
+
+	isA, isAAAA := r.QType == dns.TypeA, r.QType == dns.TypeAAAA
+	switch vc07Verdict(r) {
+	case "blocked", "resp-blocked":
+		switch {
+		case p.Mode == "nxdomain" || p.Mode == "refused":
+			want := map[string]int{"nxdomain": dns.RcodeNameError, "refused": dns.RcodeRefused}[p.Mode]
+			if m.Rcode != want || len(m.Answer) != 0 {
+				bad("rcode %d with %d answers, want rcode %d and none", m.Rcode, len(m.Answer), want)
+			}
+		case p.Mode == "nullip" && isA:
+			oneIP("0.0.0.0")
+		case p.Mode == "nullip" && isAAAA:
+			oneIP("::")
+		case p.Mode == "customip" && isA:
+			oneIP(vc07CustomV4[0].String())
+		case p.Mode == "customip" && isAAAA:
+			oneIP(vc07CustomV6[0].String())
+		default:
+			if m.Rcode != dns.RcodeSuccess || len(m.Answer) != 0 {
+				bad("rcode %d with %d answers, want NODATA", m.Rcode, len(m.Answer))
+			}
+
+			for _, rr := range m.Ns {
+				if rr.Header().Ttl != ttl {
+					bad("authority record %s does not carry the profile's TTL", rr)
+				}
+			}
+		}
+	case "rewritten":
+		oneIP(vc07RwIP(r.Client.Prof, r.QType).String())
+	case "safe-browsing":
+		if isA {
+			oneIP(vc07SbIP.String())
+		}
+	case "cname":
+		if len(m.Answer) == 0 {
+			bad("no answers")
+
+			break
+		}
+
+		cn, ok := m.Answer[0].(*dns.CNAME)
+		if !ok || cn.Target != vc07CnTarget(r.Client.Prof) || cn.Hdr.Ttl != ttl || !strings.EqualFold(cn.Hdr.Name, r.Name) {
+			bad("first answer %s, want a CNAME to %s with the profile's TTL", m.Answer[0], vc07CnTarget(r.Client.Prof))
 		}
 	}
 
@@ -472,6 +607,31 @@ func vc07Classify(c *vc07Case, upstreamCalls int64) (classes []string, nontrivia
 		if r.QType == dns.TypeHTTPS {
 			set["https-question"] = true
 		}
+
+		if r.NearMissOf > 0 {
+			set["near-miss"] = true
+			set["near-miss-"+r.Changed] = true
+		}
+
+		if r.Cancel {
+			set["cancelled-context"] = true
+		}
+
+		if r.Client.ECS2 != "" {
+			set["two-ecs-options"] = true
+		}
+
+		if r.MsgID == 0 {
+			set["msg-id-zero"] = true
+		}
+
+		if !vc07InScheme(r.Name) {
+			set["minimal-name"] = true
+		} else if cat, _ := vc07CatOf(r.Name); cat == "err" {
+			set["upstream-error"] = true
+		} else if strings.Contains(cat, "-") {
+			set["combined-categories"] = true
+		}
 	}
 
 	for key, ps := range profsByName {
@@ -495,6 +655,67 @@ func vc07Classify(c *vc07Case, upstreamCalls int64) (classes []string, nontrivia
 	return classes, nontrivial
 }
 
+// vc07Adjacent classifies consecutive requests of a single-goroutine history
+// by the kind of requester: a pooled object released by one is most likely
+// handed to the next.
+func vc07Adjacent(order []*vc07Req) (classes []string) {
+	set := map[string]bool{}
+	hasOPT := func(r *vc07Req) bool {
+		return r.EDNS || r.DO || r.Cookie || r.Client.ECS != "" || r.Client.Via == "cpe"
+	}
+
+	for i := 1; i < len(order); i++ {
+		a, b := order[i-1], order[i]
+		pa, pb := vc07Profiles[a.Client.Prof], vc07Profiles[b.Client.Prof]
+		switch {
+		case a.Client.Prof != 0 && b.Client.Prof == 0:
+			set["adjacent-anon-after-profile"] = true
+		case a.Client.Prof == 0 && b.Client.Prof != 0:
+			set["adjacent-profile-after-anon"] = true
+		case a.Client.Prof != b.Client.Prof:
+			set["adjacent-other-profile"] = true
+		}
+
+		if pa.QueryLog && !pb.QueryLog {
+			set["adjacent-unlogged-after-logged"] = true
+		}
+
+		if pa.IPLog && pb.QueryLog && !pb.IPLog {
+			set["adjacent-noiplog-after-iplog"] = true
+		}
+
+		if hasOPT(a) && !hasOPT(b) {
+			set["adjacent-noedns-after-edns"] = true
+		}
+
+		if a.Client.ECS != "" && b.Client.ECS == "" {
+			set["adjacent-noecs-after-ecs"] = true
+		}
+
+		if a.Client.Via == "sni" && b.Client.Via != "sni" {
+			set["adjacent-plain-after-dot"] = true
+		}
+
+		if a.QType == dns.TypeHTTPS && b.QType != dns.TypeHTTPS {
+			set["adjacent-small-after-https"] = true
+		}
+
+		if a.Debug && !b.Debug {
+			set["adjacent-normal-after-debug"] = true
+		}
+
+		if (a.Cancel || strings.Contains(strings.ToLower(a.Name), ".err.")) && !b.Cancel {
+			set["adjacent-after-failed-request"] = true
+		}
+	}
+
+	for k := range set {
+		classes = append(classes, k)
+	}
+
+	return classes
+}
+
 func vc07Report(t *rapid.T, c *vc07Case, what string, problems []string) {
 	if len(problems) == 0 {
 		return
@@ -509,7 +730,9 @@ func vc07Report(t *rapid.T, c *vc07Case, what string, problems []string) {
 func TestVerifC07StackSequential(t *testing.T) {
 	st := vstat.New("C07", "stack.sequential",
 		"rapid: 2..5 streams of 1..4 requests from a pool of 13 clients (anonymous, DoT device by server name, plain-DNS device by CPE-ID option or linked address; 4 profiles with different policies, blocking modes, TTLs and logging flags) over 1..4 shared names (7 filtering categories x answer kinds x ECS-scoped or not), qtypes A/AAAA/HTTPS/TXT, debug (CHAOS) queries, DO/AD/CD/RD/EDNS/Z/cookie/ECS variations; served interleaved in a drawn order by one goroutine on one stack from dnssvc.NewHandlers; every response and recorder entry compared with the same request alone on a fresh stack; non-trivial = two streams of different profiles ask the same (name, type); distinct by the request set",
-		"overlap-different-profiles", "same-name-different-verdicts", "cache-hits", "debug-query", "verdict-blocked", "verdict-rewritten", "verdict-cname", "verdict-resp-blocked", "via-sni", "via-cpe", "via-linked", "via-anon", "ecs-client", "https-question")
+		"overlap-different-profiles", "same-name-different-verdicts", "cache-hits", "debug-query", "verdict-blocked", "verdict-rewritten", "verdict-cname", "verdict-resp-blocked", "via-sni", "via-cpe", "via-linked", "via-anon", "ecs-client", "https-question",
+		"near-miss", "near-miss-do", "near-miss-case", "near-miss-qtype", "near-miss-nothing", "combined-categories", "upstream-error", "cancelled-context", "two-ecs-options", "minimal-name", "msg-id-zero",
+		"adjacent-anon-after-profile", "adjacent-other-profile", "adjacent-unlogged-after-logged", "adjacent-noiplog-after-iplog", "adjacent-noedns-after-edns", "adjacent-plain-after-dot", "adjacent-after-failed-request")
 	st.Finish(t)
 
 	rapid.Check(t, func(t *rapid.T) {
@@ -544,6 +767,7 @@ func TestVerifC07StackSequential(t *testing.T) {
 
 		problems = append(problems, shared.fails...)
 		classes, nt := vc07Classify(c, shared.up.calls.Load())
+		classes = append(classes, vc07Adjacent(order)...)
 		key := ""
 		if nt {
 			key = c.String()
@@ -568,7 +792,7 @@ func TestVerifC07StackSequential(t *testing.T) {
 func TestVerifC07StackConcurrent(t *testing.T) {
 	st := vstat.New("C07", "stack.concurrent",
 		"the same request sets, 2..8 streams of 1..5 requests, every stream in its own goroutine on one stack (start together, drawn scheduler yields before each request), two repetitions on fresh stacks; responses and recorder entries compared with the same request alone on a fresh stack; under the race detector when built with -race; non-trivial = two streams of different profiles ask the same (name, type)",
-		"overlap-different-profiles", "same-name-different-verdicts", "cache-hits", "debug-query", "verdict-blocked", "verdict-cname")
+		"overlap-different-profiles", "same-name-different-verdicts", "cache-hits", "debug-query", "verdict-blocked", "verdict-cname", "near-miss", "combined-categories", "upstream-error", "cancelled-context")
 	st.Finish(t)
 
 	reps := vstat.Scale(2, 3)
